@@ -108,8 +108,10 @@ func c18Units(tier string) []hx.Unit {
 	roots := []phase0.Root{root(1), root(2), root(3)}
 	// the two old blocks sit exactly on the retention boundary of the first and of the second clean run
 	// (first slot of epoch 67-64 and of epoch 68-64); each block's parent is the previous root, several
-	// slots older
-	trueSlot := map[phase0.Root]phase0.Slot{roots[0]: 3 * slotsPerEpoch, roots[1]: 4 * slotsPerEpoch, roots[2]: 66 * slotsPerEpoch}
+	// slots older.  The newest block belongs to the slot after the one vouch's clock shows when it starts (the
+	// beacon node's clock is slightly ahead of vouch's): until the first clean run its events and lookups come
+	// before its slot by vouch's clock.
+	trueSlot := map[phase0.Root]phase0.Slot{roots[0]: 3 * slotsPerEpoch, roots[1]: 4 * slotsPerEpoch, roots[2]: 66*slotsPerEpoch + 1}
 	parents := map[phase0.Root]phase0.Root{roots[1]: roots[0], roots[2]: roots[1], roots[0]: root(9)}
 	nOps := 4*len(roots) + 1
 	var units []hx.Unit
@@ -240,7 +242,7 @@ func init() {
 	hx.Register(&hx.Prop{
 		ID:    "C18",
 		Title: "A block root always maps to that block's slot",
-		Rule: "all operation sequences up to the depth bound (quick 4, thorough 6) over {block event, head event, lookup with working provider, lookup with failing provider} x 3 roots, each the parent of the next with missed slots in between (slots exactly on the retention boundary of the first and of the second clean run, and far inside the window) and {clean run}, on the real cache service (started while the chain head moves from the second to the third block between requests) with the real scheduler and chain time on a virtual clock; compared with a reference map after every step; " +
+		Rule: "all operation sequences up to the depth bound (quick 4, thorough 6) over {block event, head event, lookup with working provider, lookup with failing provider} x 3 roots, each the parent of the next with missed slots in between (slots exactly on the retention boundary of the first and of the second clean run, and one slot ahead of vouch's clock at the start) and {clean run}, on the real cache service (started while the chain head moves from the second to the third block between requests) with the real scheduler and chain time on a virtual clock; compared with a reference map after every step; " +
 			"non-trivial = the sequence contains a lookup miss or a clean run; distinct = distinct (miss, clean, length) classes",
 		Assumptions:   []string{"single caller (overlap of lookups and events is C17)", "block events carry the block's true slot"},
 		Units:         c18Units,
